@@ -102,6 +102,8 @@ def expected_links(labels, values, ids=()):
             pending = False
     if 235000 in ids and sum(1 for l in labels if l in ('222000', '223000', '224000', '225000', '232000')) != len(resets):
         return None          # operators inside replications / sequences: outside this oracle
+    if 'marker-under-204' in B.wiring_hazards(ids):
+        return None          # D14/D16: a marker operator while 204YYY is in force (labels carry extra A-entries)
     plain = lambda l: len(l) == 6 and l.isdigit() and l[0] == '0'
     links = {}
     refs = None
